@@ -202,6 +202,28 @@ def da_writes_column(tree):
     return writes, copies
 
 
+def split_site(tree):
+    """_build_corrected_polygon_shells: is antimeridian.fix_polygon applied to every polygon (0) or only under
+    a per-polygon crossing test (1)"""
+    fn = find_func(tree, "_build_corrected_polygon_shells")
+    for node in ast.walk(fn):
+        if isinstance(node, ast.Assign) and isinstance(node.targets[0], ast.Name) and node.targets[0].id == "corrected_polygons":
+            v = node.value
+            if not isinstance(v, ast.ListComp):
+                raise Broken("_build_corrected_polygon_shells: corrected_polygons is no list comprehension")
+            e = v.elt
+
+            def is_fix(x):
+                return isinstance(x, ast.Call) and isinstance(x.func, ast.Attribute) and x.func.attr == "fix_polygon"
+            if is_fix(e):
+                return 0
+            if isinstance(e, ast.IfExp) and is_fix(e.body) and isinstance(e.orelse, ast.Name) and ">=" in ast.unparse(e.test) \
+                    and "180" in ast.unparse(e.test):
+                return 1
+            raise Broken("_build_corrected_polygon_shells: element %s" % ast.unparse(e)[:80])
+    raise Broken("_build_corrected_polygon_shells: corrected_polygons not found")
+
+
 def zl(keys):
     return "[" + "; ".join(str(TOK[k]) for k in keys) + "]"
 
@@ -232,6 +254,8 @@ def main():
         w, cp = da_writes_column(da)
         lines.append("Definition c15_da_gdf_writes_column : bool := %s." % ("true" if w else "false"))
         lines.append("Definition c15_da_gdf_copies : bool := %s." % ("true" if cp else "false"))
+        lines.append("(* PolyCollection 'split': antimeridian.fix_polygon only for polygons with an edge spanning >= 180 *)")
+        lines.append("Definition c15_poly_split_only_crossing : bool := %s." % ("true" if split_site(geo) else "false"))
         lines.append("")
     except (Broken, SyntaxError, OSError) as ex:
         sys.stderr.write("tie broken: %s\n" % ex)
